@@ -49,14 +49,15 @@ Fixpoint first_bad (n : N) (s : state) (l : list (op * obs)) : option (N * N * s
   end.
 
 (* the guards of the theorems, evaluated along a history: (sharing_visible, no reingest, target inside, recs inside,
-   put coherent) at the state BEFORE each step *)
+   put coherent, live/trash disjoint) at the state BEFORE each step *)
 Definition guard_ok (s : state) (x : op) : bool :=
-  sharing_visible s && negb (reingest s x) && target_inside x && recs_inside s && put_coherent x.
+  sharing_visible s && negb (reingest s x) && target_inside x && recs_inside s && put_coherent x && live_trash_disjoint s.
 
-Fixpoint guards (s : state) (l : list op) : list (bool * bool * bool * bool * bool) :=
+Fixpoint guards (s : state) (l : list op) : list (bool * bool * bool * bool * bool * bool) :=
   match l with
   | [] => []
-  | x :: r => (sharing_visible s, negb (reingest s x), target_inside x, recs_inside s, put_coherent x) :: guards (fst (step s x)) r
+  | x :: r => (sharing_visible s, negb (reingest s x), target_inside x, recs_inside s, put_coherent x, live_trash_disjoint s)
+              :: guards (fst (step s x)) r
   end.
 
 (* cross-check theorem <-> oracle over a WHOLE history: the flag of a step says that the property oracle (evaluated on the
